@@ -339,6 +339,17 @@ SEEDS = [
     "<field type='list-single' var='pubsub#subscription_depth'><value>all</value></field></x>",
     "<x xmlns='jabber:x:data' type='submit'><field type='hidden' var='FORM_TYPE'><value>http://jabber.org/protocol/pubsub#publish-options</value></field>"
     "<field type='list-single' var='pubsub#access_model'><value>presence</value></field></x>",
+    # data forms with every field child XEP-0004 / 0122 / 0221 define (desc, description, required, option label, media, validate, reported/item, 2x instructions, title),
+    # standalone and embedded in a message, a pubsub configuration event, a MUC owner IQ, a disco#info result and a MAM query
+    "<x xmlns='jabber:x:data' type='form'><title>Form title</title><instructions>first line</instructions><instructions>second line</instructions><field type='hidden' var='FORM_TYPE'><value>urn:verif:form</value></field><field var='f1' type='list-single' label='L'><desc>what f1 means</desc><required/><value>a</value><option label='A'><value>a</value></option><option><value>b</value></option><validate xmlns='http://jabber.org/protocol/xdata-validate' datatype='xs:string'><regex>[ab]</regex></validate></field><field var='f2' type='text-single'><description>legacy spelling</description><value>v</value></field><field var='f3' type='boolean'><desc>flag</desc><value>1</value></field><field var='f4' label='pic'><media xmlns='urn:xmpp:media-element' height='80' width='290'><uri type='image/jpeg'>http://www.victim.com/challenges/ocr.jpeg?F3A6292C</uri><uri type='image/png'>cid:sha1+f24030b8d91d233bac14777be5ab531ca3b9f102@bob.xmpp.org</uri></media></field></x>",
+    "<x xmlns='jabber:x:data' type='result'><title>Search results</title><reported><field var='first' label='Given Name' type='text-single'/><field var='jid' label='Jabber ID' type='jid-single'/></reported><item><field var='first'><value>Benvolio</value></field><field var='jid'><value>benvolio@montague.net</value></field></item><item><field var='first'><value>Romeo</value></field><field var='jid'><value>romeo@montague.net</value></field></item></x>",
+    "<x xmlns='jabber:x:data' type='submit'><field var='only-desc'><desc>d</desc></field></x>",
+    "<x xmlns='jabber:x:data' type='form'><title/><instructions/><field var='empty-children' type='list-multi'><desc/><option/><value/></field></x>",
+    "<message from='a@b.example/c' to='d@e.example' type='normal' id='form1'><body>please fill in</body><x xmlns='jabber:x:data' type='form'><title>Form title</title><instructions>first line</instructions><instructions>second line</instructions><field type='hidden' var='FORM_TYPE'><value>urn:verif:form</value></field><field var='f1' type='list-single' label='L'><desc>what f1 means</desc><required/><value>a</value><option label='A'><value>a</value></option><option><value>b</value></option><validate xmlns='http://jabber.org/protocol/xdata-validate' datatype='xs:string'><regex>[ab]</regex></validate></field><field var='f2' type='text-single'><description>legacy spelling</description><value>v</value></field><field var='f3' type='boolean'><desc>flag</desc><value>1</value></field><field var='f4' label='pic'><media xmlns='urn:xmpp:media-element' height='80' width='290'><uri type='image/jpeg'>http://www.victim.com/challenges/ocr.jpeg?F3A6292C</uri><uri type='image/png'>cid:sha1+f24030b8d91d233bac14777be5ab531ca3b9f102@bob.xmpp.org</uri></media></field></x></message>",
+    "<message from='pubsub.b.example' to='d@e.example' id='cfg1'><event xmlns='http://jabber.org/protocol/pubsub#event'><configuration node='princely_musings'><x xmlns='jabber:x:data' type='result'><field var='FORM_TYPE' type='hidden'><value>http://jabber.org/protocol/pubsub#node_config</value></field><field var='pubsub#title' type='text-single' label='Title'><desc>A friendly name for the node</desc><value>Princely Musings (Atom)</value></field><field var='pubsub#access_model' type='list-single'><desc>who may subscribe</desc><required/><option label='Open'><value>open</value></option><option><value>whitelist</value></option><value>open</value></field></x></configuration></event></message>",
+    '<iq type=\'result\' id=\'owner1\' from=\'coven@chat.shakespeare.lit\' to=\'crone1@shakespeare.lit/desktop\'><query xmlns=\'http://jabber.org/protocol/muc#owner\'><x xmlns=\'jabber:x:data\' type=\'form\'><title>Configuration for "coven" Room</title><instructions>Complete this form</instructions><field type=\'hidden\' var=\'FORM_TYPE\'><value>http://jabber.org/protocol/muc#roomconfig</value></field><field label=\'Natural-Language Room Name\' type=\'text-single\' var=\'muc#roomconfig_roomname\'><desc>shown in lists</desc><value>A Dark Cave</value></field><field label=\'Maximum Number of Occupants\' type=\'list-single\' var=\'muc#roomconfig_maxusers\'><desc>limit</desc><required/><value>10</value><option label=\'10\'><value>10</value></option><option label=\'None\'><value/></option></field></x></query></iq>',
+    "<iq type='result' id='disco1' from='shakespeare.lit' to='juliet@capulet.com/chamber'><query xmlns='http://jabber.org/protocol/disco#info'><identity category='server' type='im' name='s'/><feature var='http://jabber.org/protocol/disco#info'/><x xmlns='jabber:x:data' type='result'><field var='FORM_TYPE' type='hidden'><value>http://jabber.org/network/serverinfo</value></field><field var='abuse-addresses' type='list-multi' label='Abuse'><desc>where to complain</desc><value>mailto:abuse@shakespeare.lit</value><value>xmpp:abuse@shakespeare.lit</value></field></x></query></iq>",
+    "<iq type='set' id='mam1'><query xmlns='urn:xmpp:mam:2' queryid='f27'><x xmlns='jabber:x:data' type='submit'><field var='FORM_TYPE' type='hidden'><value>urn:xmpp:mam:2</value></field><field var='with' type='jid-single'><desc>conversation partner</desc><value>juliet@capulet.lit</value></field><field var='start' type='text-single'><desc>from</desc><required/><value>2010-06-07T00:00:00Z</value></field></x><set xmlns='http://jabber.org/protocol/rsm'><max>10</max></set></query></iq>",
     "<message to='foo@example.com/QXmpp' from='bar@example.com/QXmpp' type='chat'><body>hi!</body><html xmlns='http://jabber.org/protocol/xhtml-im'>"
     "<body xmlns='http://www.w3.org/1999/xhtml'><p style='font-weight:bold'>hi <a href='http://x/?a=1&amp;b=2'>&lt;there&gt;</a></p></body></html></message>",
 ]
